@@ -67,6 +67,7 @@ Proof.
           as [[t i]|]; inversion H; subst; clear H; (eexists; split; [reflexivity|]);
           unfold mu_g; cbn [g_pc g_retry rank]; rewrite Hpc; cbn [rank]; lia.
   - (* Result *)
+    destruct (is_stall (c_beh c (task_peer ts t) (g_h G))); [discriminate|].
     destruct (accepted (c_beh c (task_peer ts t) (g_h G))); inversion H; subst; clear H;
       (eexists; split; [reflexivity|]); unfold mu_g; simpl; rewrite Hpc; simpl; lia.
   - (* Release, failed *) inversion H; subst; clear H. eexists; split; [reflexivity|].
@@ -130,15 +131,24 @@ Proof.
   rewrite mu_init in H. lia.
 Qed.
 
-(** progress: a goroutine that has not returned can always take its next event *)
+(** a goroutine waits for an answer that never comes *)
+Definition waits_forever (c : config) (ts : list task) (G : gstate) : bool :=
+  match g_pc G with
+  | PReq t => is_stall (c_beh c (task_peer ts t) (g_h G))
+  | _ => false
+  end.
+
+(** progress: a goroutine that has not returned and does not wait for a silent
+    peer can always take its next event *)
 Lemma next_event_enabled c ts s g e :
-  g < length (s_gs s) -> next_event (nth g (s_gs s) dummy_g) g = Some e ->
+  g < length (s_gs s) -> waits_forever c ts (nth g (s_gs s) dummy_g) = false ->
+  next_event (nth g (s_gs s) dummy_g) g = Some e ->
   exists s', step c ts s e = Some s'.
 Proof.
-  intros Hlt Hn. unfold next_event in Hn.
+  intros Hlt Hw Hn. unfold next_event in Hn. unfold waits_forever in Hw.
   assert (Hb : (g <? length (s_gs s)) = true) by (apply Nat.ltb_lt; exact Hlt).
   destruct (g_pc (nth g (s_gs s) dummy_g)) eqn:Hpc; inversion Hn; subst; clear Hn;
-    unfold step; simpl; rewrite Hb; simpl; rewrite Hpc.
+    unfold step; simpl; rewrite Hb; simpl; rewrite Hpc; try rewrite Hw.
   all: repeat match goal with
        | |- exists _, (if ?b then _ else _) = _ => destruct b
        | |- exists _, match ?x with _ => _ end = _ => destruct x
@@ -161,48 +171,9 @@ Proof.
 Qed.
 
 Lemma progress c ts s :
+  (forall g, g < length (s_gs s) -> waits_forever c ts (nth g (s_gs s) dummy_g) = false) ->
   all_done s = false -> exists e s', step c ts s e = Some s'.
 Proof.
-  intro H. destruct (not_all_done_has_next s H) as [g [e [Hg Hn]]].
-  destruct (next_event_enabled c ts s g e Hg Hn) as [s' Hs]. exists e, s'. exact Hs.
-Qed.
-
-(** a goroutine run alone returns within its fuel *)
-Lemma run_g_done c ts g : forall fuel s,
-  g < length (s_gs s) -> mu_g (nth g (s_gs s) dummy_g) <= fuel ->
-  is_done (nth g (s_gs (run_g fuel c ts s g)) dummy_g) = true.
-Proof.
-  induction fuel as [|f IH]; intros s Hlt Hmu.
-  - simpl. unfold mu_g, is_done in *. destruct (g_pc (nth g (s_gs s) dummy_g)); simpl in *; auto; lia.
-  - simpl. destruct (next_event (nth g (s_gs s) dummy_g) g) as [e|] eqn:Hn.
-    + destruct (next_event_enabled c ts s g e Hlt Hn) as [s' Hs]. rewrite Hs.
-      assert (He : ev_g e = g).
-      { unfold next_event in Hn. destruct (g_pc _); inversion Hn; reflexivity. }
-      destruct (step_gs _ _ _ _ _ Hs) as [_ [G' [Hgs HG']]]. rewrite He in *.
-      apply IH.
-      * rewrite Hgs, upd_length. exact Hlt.
-      * rewrite Hgs, nth_upd_same by exact Hlt. lia.
-    + unfold next_event in Hn. unfold is_done. destruct (g_pc _); try discriminate. reflexivity.
-Qed.
-
-Lemma run_g_length c ts g : forall fuel s, length (s_gs (run_g fuel c ts s g)) = length (s_gs s).
-Proof.
-  induction fuel as [|f IH]; intro s; [reflexivity|].
-  cbn [run_g]. destruct (next_event (nth g (s_gs s) dummy_g) g) as [e|]; [|reflexivity].
-  destruct (step c ts s e) as [s'|] eqn:Hs; [|reflexivity].
-  rewrite IH. apply (step_length _ _ _ _ _ Hs).
-Qed.
-
-Lemma recheck_done c h : all_done (recheck c h) = true.
-Proof.
-  unfold recheck. set (ts := init_job c). set (s0 := init_state ts [h]).
-  assert (H0 : 0 < length (s_gs s0)) by (unfold s0, init_state; cbn [s_gs map length]; lia).
-  assert (Hm : mu_g (nth 0 (s_gs s0) dummy_g) <= g_fuel).
-  { unfold s0, init_state, mu_g, g_fuel. cbn [s_gs map nth g_pc g_retry rank]. lia. }
-  pose proof (run_g_done c ts 0 g_fuel s0 H0 Hm) as H.
-  pose proof (run_g_length c ts 0 g_fuel s0) as Hlen.
-  assert (Hl0 : length (s_gs s0) = 1) by reflexivity. rewrite Hl0 in Hlen.
-  unfold all_done.
-  destruct (s_gs (run_g g_fuel c ts s0 0)) as [|G [|G2 l]]; cbn [length] in Hlen; try discriminate.
-  cbn [nth] in H. cbn [forallb]. rewrite H. reflexivity.
+  intros Hw H. destruct (not_all_done_has_next s H) as [g [e [Hg Hn]]].
+  destruct (next_event_enabled c ts s g e Hg (Hw g Hg) Hn) as [s' Hs]. exists e, s'. exact Hs.
 Qed.
